@@ -18,6 +18,7 @@ LAYER = {1: "invariant: PkgOK (manifest file entries = package files, each once;
          3: "manifest: the manifest entry list after the operation differs from the model's",
          4: "result: the operation's result (raised or not) differs from the model's",
          5: "abstraction: duplicate keys in the abstracted state",
+         7: "rdf-entry: save deleted a manifest.rdf that the manifest lists with an empty media type and kept the entry",
          6: "twin: an operation on one of original / clone broke PkgOK of the other (shared state); saving the other gives a zip its manifest does not describe",
          8: "bookkeeping: the invariant the theorems assume (unique keys, current folder time stamps, cached XML parts only) is lost"}
 WEIGHTS = dict(addfile=6, frame=2, **{"del": 4}, delmandatory=1, **{"import": 2}, set=1, get=1, touch=1, edit=1, save=4, saveself=1, reopen=3, clone=2, clone2=1, swap=2)
@@ -77,6 +78,9 @@ def make_histories(tier, rng):
         hs.append([dict(st), dict(A), dict(op="del", r=11), dict(A), dict(SV), dict(op="clone"), dict(B), dict(op="del", r=5), dict(SP)])
         hs.append([dict(st), dict(op="import", name="Pictures/imp.png", data="x", mt="image/png"), dict(op="import", name="Pictures/imp.png", data="y", mt="image/jpeg"),
                    dict(SV), dict(op="del", name="Pictures/imp.png"), dict(SV)])
+    # F42: manifest.rdf listed with an empty media type (Manifest.add_full_path's default), then save
+    for st in starts[:2]:
+        hs.append([dict(st), dict(op="import", name="manifest.rdf", data="<rdf/>", mt=""), dict(SV), dict(op="reopen", r=1)])
     # twins: clone, operate on one, save / inspect the other — in both directions
     for st in starts + [dict(op="open", src=s, buf=b) for s in small[:: (9 if tier == "quick" else 2)] for b in (False, True)]:
         for op in (dict(A), dict(B), dict(op="del", r=3), dict(op="import", name="Pictures/tw.png", data="tw", mt="image/png"), dict(op="set", r=5)):
@@ -93,7 +97,7 @@ def key_of(rec, code, probs):
         return "%s/%s" % (k, "manifest-incoherent")
     if code == 2:
         return "%s/%s" % (k, "+".join(probs) or "zip-shape")
-    return "%s/%s" % (k, {4: "result", 5: "abstraction", 6: "twin-incoherent", 8: "bookkeeping"}.get(code, str(code)))
+    return "%s/%s" % (k, {4: "result", 5: "abstraction", 6: "twin-incoherent", 7: "manifest-rdf-empty-type", 8: "bookkeeping"}.get(code, str(code)))
 
 
 def run(tier, seed, replay=None):
